@@ -13,9 +13,9 @@ use libp2p_kad::verif_c40::{self as raw, KeyBytes};
 use libp2p_kad::{NodeStatus, U256};
 
 // ---------------------------------------------------------------- virtual clock
-static VIRTUAL: AtomicBool = AtomicBool::new(false);
+pub(crate) static VIRTUAL: AtomicBool = AtomicBool::new(false);
 /// virtual CLOCK_MONOTONIC in seconds (does not flow by itself)
-static VNOW_S: AtomicU64 = AtomicU64::new(1_000_000);
+pub(crate) static VNOW_S: AtomicU64 = AtomicU64::new(1_000_000);
 
 extern "C" {
     fn __clock_gettime(clk: i32, ts: *mut [i64; 2]) -> i32;
@@ -34,13 +34,13 @@ pub unsafe extern "C" fn clock_gettime(clk: i32, ts: *mut [i64; 2]) -> i32 {
 }
 
 // ---------------------------------------------------------------- helpers
-fn key(x: U256) -> KeyBytes {
+pub(crate) fn key(x: U256) -> KeyBytes {
     raw::key_from_raw(x.to_big_endian())
 }
-fn h(x: U256) -> String {
+pub(crate) fn h(x: U256) -> String {
     hex(&x.to_big_endian())
 }
-fn parse(s: &str) -> U256 {
+pub(crate) fn parse(s: &str) -> U256 {
     U256::from_big_endian(&hcore::unhex(s))
 }
 fn st_tok(s: NodeStatus) -> &'static str {
@@ -57,15 +57,15 @@ fn st_of(s: &str) -> NodeStatus {
     }
 }
 
-struct Case {
-    local: U256,
-    keys: Vec<U256>,
+pub(crate) struct Case {
+    pub(crate) local: U256,
+    pub(crate) keys: Vec<U256>,
     names: HashMap<[u8; 32], String>,
-    table: VerifTable,
+    pub(crate) table: VerifTable,
 }
 
 impl Case {
-    fn new(local: U256, bsize: usize, timeout: u64, keys: Vec<U256>) -> Case {
+    pub(crate) fn new(local: U256, bsize: usize, timeout: u64, keys: Vec<U256>) -> Case {
         let mut names = HashMap::new();
         for (i, k) in keys.iter().enumerate().rev() {
             names.insert(k.to_big_endian(), i.to_string());
@@ -76,7 +76,7 @@ impl Case {
         Case { local, keys, names, table }
     }
 
-    fn header(&self, bsize: usize, timeout: u64) -> String {
+    pub(crate) fn header(&self, bsize: usize, timeout: u64) -> String {
         format!(
             "local={} bsize={} timeout={} keys={}",
             h(self.local),
@@ -120,7 +120,7 @@ impl Case {
         }
     }
 
-    fn run_op(&mut self, op: &[String]) -> String {
+    pub(crate) fn run_op(&mut self, op: &[String]) -> String {
         let res = match op[0].as_str() {
             "ins" => {
                 let k = self.key_of(&op[1]);
@@ -197,12 +197,12 @@ impl Case {
     }
 }
 
-fn s(v: &[&str]) -> Vec<String> {
+pub(crate) fn s(v: &[&str]) -> Vec<String> {
     v.iter().map(|x| x.to_string()).collect()
 }
 
 /// key universe: keys concentrated in a few buckets around `local`
-fn universe(rng: &mut Rng, local: U256, buckets: &[usize], per_bucket: usize) -> Vec<U256> {
+pub(crate) fn universe(rng: &mut Rng, local: U256, buckets: &[usize], per_bucket: usize) -> Vec<U256> {
     let mut keys = vec![];
     for &i in buckets {
         let top = U256::one() << i;
